@@ -429,6 +429,49 @@ fn cancel_keeps_working(seed: u64, rep: &Report) -> Result<(), String> {
     } else {
         cancel_round(&mut cell, &mut x, "X", "X.n3", rep, "third_statement_of_the_session")?;
     }
+    // ---- a cancel sent while the pooler is still applying the client's own parameters to the server it
+    // has just been given (the client's statement is on its way, the server is the client's already)
+    {
+        let mut w = conn(&cell, "W_sync")?;
+        cell.mocks[0].ctl.slow_ms.store(350, Ordering::SeqCst);
+        // (the mock sits 350 ms on every message before it handles it: the pooler's SET for this
+        // client stays unanswered that long; the pooler's checkout hook event marks the moment the
+        // server became this client's)
+        let ck0 = cell.pg().events().iter().filter(|e| e.1 == "checkout").count();
+        w.send(&proto::query(&format!("SELECT 1 {}", tag("W_sync", "W.s1", "rows=1")))).map_err(|e| e.to_string())?;
+        let deadline = now_ns() + 3_000_000_000;
+        let mut sync_seen = false;
+        while now_ns() < deadline && !sync_seen {
+            sync_seen = cell.pg().events().iter().filter(|e| e.1 == "checkout").count() > ck0;
+            if !sync_seen {
+                sleep_ms(2);
+            }
+        }
+        if sync_seen {
+            sleep_ms(20);
+            let n1 = cell.log.len();
+            send_cancel(&addr, w.pid, w.key).map_err(|e| e.to_string())?;
+            let deadline = now_ns() + 2_500_000_000;
+            let mut delivered = false;
+            while now_ns() < deadline && !delivered {
+                delivered = cancels_since(&cell, n1).iter().any(|c| c.1.is_some());
+                if !delivered {
+                    sleep_ms(5);
+                }
+            }
+            rep.count("cancels_during_parameter_sync", 1);
+            if !delivered {
+                rep.violation(
+                    &format!("C10|valid_cancel_not_delivered_to_own_running_session|when=parameter_sync_in_flight|mode={}", mode),
+                    "a client sent a statement and then its cancel while the pooler was applying the client's parameters to the server it had just given that client: no CancelRequest reached that server",
+                    json!({"seed": seed, "mode": mode, "pgcat_log_tail": cell.pg().log_tail(6)}),
+                );
+            }
+        }
+        cell.mocks[0].ctl.slow_ms.store(0, Ordering::SeqCst);
+        let _ = w.read_until_ready(10_000);
+        w.terminate();
+    }
     x.terminate();
     Ok(())
 }
